@@ -54,6 +54,7 @@ pub fn suites() -> Vec<(&'static str, Suite)> {
         ("gather", c16::run_gather as Suite),
         ("cs_px", px::run_cs_px as Suite),
         ("mask_ops", px::run_mask_ops as Suite),
+        ("thin_cov", px::run_thin_cov as Suite),
         ("nearest_map", c16::run_nearest_map as Suite),
         ("stroker_hist", c20::run_stroker_hist as Suite),
         ("draw_hist", c20::run_draw_hist as Suite),
